@@ -3,7 +3,7 @@ Python's `sorted` is a stable sort.  On a total preorder every stable sort retur
 it is modelled by the stable insertion sort below (structural recursion, so that concrete instances
 reduce in the kernel).
 -/
-namespace Ztr.Sort
+namespace Ztr.PySort
 
 variable {α : Type}
 
@@ -17,4 +17,4 @@ def isort (le : α → α → Bool) : List α → List α
   | [] => []
   | x :: xs => insert le x (isort le xs)
 
-end Ztr.Sort
+end Ztr.PySort
